@@ -6,7 +6,9 @@ import random
 from ..common import subseed
 from .doc import gen_doc, profile
 
-ROTATION = ['default', 'splitty', 'texty', 'kern_only', 'default', 'kern_core', 'simple', 'splitty']
+ROTATION = ['default', 'splitty', 'texty', 'kern_only', 'default', 'kern_core', 'simple', 'splitty',
+            'default', 'many_spines', 'texty', 'long_tokens', 'kern_only', 'wide_split', 'tiny', 'default',
+            'splitty', 'default', 'texty', 'kern_core', 'simple', 'default', 'kern_only', 'many_measures']
 
 
 def make_doc(case_seed: int, pname: str = None, **over):
